@@ -48,15 +48,24 @@ T2S = [-1, 0, 1, 2, 3, 4, 5, 6, 7]
 LONG = ["a", "bbb", "cc-long-name", "d"]          # differing lengths, sorted like their indices
 
 
+BIGID = 2 ** 53                                   # 64-bit ids: neighbours are NOT distinct float64 values
+
+
 def gname(i, style):
     if style == "strlen":
         return LONG[int(i)]
+    if style == "bigint":
+        return np.int64(BIGID + int(i))
     return f"g{i}" if style == "str" else int(i)
 
 
 def gidx(x):
     if str(x) in LONG:
         return LONG.index(str(x))
+    if isinstance(x, (int, np.integer)) and int(x) >= BIGID:
+        return int(x) - BIGID
+    if isinstance(x, (float, np.floating)):
+        return int(x) - BIGID if x >= BIGID else (int(x) if x == int(x) else -999)
     return int(str(x).lstrip("g"))
 
 
@@ -67,6 +76,14 @@ def build_g(o, style, via="init"):
     ns = np.array([G(p[0]) for p in o["neg"]], dtype=float)
     pg = np.array([gname(p[1], style) for p in o["pos"]])
     ng = np.array([gname(p[1], style) for p in o["neg"]])
+    if via == "from_labels_sorted":
+        # the documented fast path: data already ordered by score (stable, so the two classes interleave)
+        labels = np.array([1] * len(ps) + [0] * len(ns))
+        sc_, gr_ = np.concatenate([ps, ns]), np.concatenate([pg, ng])      # both classes non-empty here
+        mix = np.argsort(np.arange(len(labels)) % 2, kind="stable")          # interleave, then stable sort by score
+        order = mix[np.argsort(sc_[mix], kind="stable")]
+        return GroupScores.from_labels(labels[order], sc_[order], gr_[order], pos_label=1,
+                                       score_class=o["sc"], equal_class=o["ec"], is_sorted=True)
     if via == "from_labels":
         labels = np.array([1] * len(ps) + [0] * len(ns))
         order = np.argsort(np.arange(len(labels)) % 2, kind="stable")
@@ -308,6 +325,41 @@ def run(ctx: core.Ctx):
                 b.getitem(smp, 3, order[-1], style)
                 b.group_cm(smp, 3, [1, 4, 8], with_metrics=False)
         ev_big += b.evs
+    # 17..60 samples handed over already ordered by score (is_sorted=True), classes interleaved
+    for k in range(12 if ctx.tier == "quick" else 120):
+        n = [17, 18, 24, 33, 40, 60][k % 6]
+        ng = 2 + k % 2
+        vals = rnd.randint(0, [6, 30, 200][k % 3], n)
+        lab = rnd.randint(0, 2, n)
+        lab[:2] = [0, 1]
+        pos = [[int(v), int(rnd.randint(ng))] for v, l_ in zip(vals, lab) if l_]
+        neg = [[int(v), int(rnd.randint(ng))] for v, l_ in zip(vals, lab) if not l_]
+        a = {"pos": pos, "neg": neg, "sc": ["pos", "neg"][k % 2], "ec": ["pos", "neg"][(k // 2) % 2]}
+        b = Beh(ids, len(cases))
+        style = ["int", "strlen"][k % 2]
+        cases.append({"kind": "seeded", "input": a, "cfg": {"method": "replacement", "strat": "by_group"},
+                      "np_seed": int(ctx.seed + k), "style": style, "via": "from_labels_sorted"})
+        s_ = b.new(a, style, via="from_labels_sorted")
+        if s_ is not None:
+            for g_ in range(ng):
+                b.getitem(s_, 1, g_, style)
+            b.group_cm(s_, 1, [0, 1, 2, 3, 5, 7, 9, 11, -1], with_metrics=False)
+        ev_big += b.evs
+    # one class completely empty, 64-bit integer group ids (neighbouring ids are one float64)
+    for k in range(8 if ctx.tier == "quick" else 40):
+        ng = 2 + k % 2
+        items = [[int(rnd.randint(0, 6)), int(i % ng)] for i in range(int(rnd.randint(ng, 7)))]
+        a = {"pos": [] if k % 2 == 0 else items, "neg": items if k % 2 == 0 else [],
+             "sc": ["pos", "neg"][(k // 2) % 2], "ec": ["pos", "neg"][(k // 4) % 2]}
+        b = Beh(ids, len(cases))
+        cases.append({"kind": "seeded", "input": a, "cfg": {"method": "replacement", "strat": "none"},
+                      "np_seed": int(ctx.seed + k), "style": "bigint", "via": "init"})
+        s_ = b.new(a, "bigint")
+        if s_ is not None:
+            for g_ in range(ng):
+                b.getitem(s_, 1, g_, "bigint")
+            b.group_cm(s_, 1, [0, 1, 2, 3, 5, 7, 9, 11, -1], with_metrics=False)
+        ev_big += b.evs
     # above the single-pass switch: 'dynamic' + by_group must still use replacement sampling
     for bidx in range(2 if ctx.tier == "quick" else 6):
         npos, nneg = 112 + 7 * bidx, 105 + 11 * bidx
@@ -343,9 +395,13 @@ def replay(ctx: core.Ctx, body):
     if small:
         set_switch(2)
     try:
-        s = b.new(c["input"], c.get("style", "int"))
+        s = b.new(c["input"], c.get("style", "int"), via=c.get("via", "init"))
         if s is not None:
-            if c["kind"] == "tlc_behaviour":
+            if c.get("via") == "from_labels_sorted" or c.get("style") == "bigint":
+                for g_ in sorted({p_[1] for p_ in c["input"]["pos"] + c["input"]["neg"]}):
+                    b.getitem(s, 1, g_, c.get("style", "int"))
+                b.group_cm(s, 1, [0, 1, 2, 3, 5, 7, 9, 11, -1], with_metrics=False)
+            elif c["kind"] == "tlc_behaviour":
                 h = 1
                 for st in c["steps"]:
                     if st[0] == "Swap":
